@@ -318,11 +318,17 @@ func (t *Transport) Shutdown(ctx context.Context) error {
 		unregisterFunc()
 	}
 
+	// Do not hold the channels lock while waiting for the channels to shut down:
+	// a graphsync hook that holds a channel's lock may need it to finish
 	t.dtChannelsLk.Lock()
-	defer t.dtChannelsLk.Unlock()
+	dtChannels := make([]*dtChannel, 0, len(t.dtChannels))
+	for _, ch := range t.dtChannels {
+		dtChannels = append(dtChannels, ch)
+	}
+	t.dtChannelsLk.Unlock()
 
 	var eg errgroup.Group
-	for _, ch := range t.dtChannels {
+	for _, ch := range dtChannels {
 		ch := ch
 		eg.Go(func() error {
 			return ch.shutdown(ctx)
